@@ -89,6 +89,10 @@ type Field[E any, P Ptr[E]] struct {
 	VecWriteTo         func(a []E, w io.Writer) (int64, error)
 	VecReadFrom        func(r io.Reader) ([]E, int64, error)
 	VecAsyncReadFrom   func(r io.Reader) ([]E, int64, error, chan error)
+	// the same decoders with a receiver that already holds a vector (stale content, any length)
+	VecReadFromInto        func(dst []E, r io.Reader) ([]E, int64, error)
+	VecAsyncReadFromInto   func(dst []E, r io.Reader) ([]E, int64, error, chan error)
+	VecUnmarshalBinaryInto func(dst []E, b []byte) ([]E, error)
 	VecMarshalBinary   func(a []E) ([]byte, error)
 	VecUnmarshalBinary func(b []byte) ([]E, error)
 	VecString          func(a []E) string
